@@ -143,9 +143,7 @@ Definition REQ_IDLE_fn (c : connp) : st * connp :=
   else
     match connp_tx_create g c with
     | (None, c) => (ST_ERROR, c <| c_in_tx := None |>)
-    | (Some i, c) =>
-      let '(_, c) := tx_state_request_start cb i c in          (* return value ignored *)
-      (ST_OK, c)
+    | (Some i, c) => tx_state_request_start cb i c             (* rc propagated since /repo commit 399f0a9 *)
     end.
 
 (* htp_connp_REQ_LINE_complete *)
@@ -517,14 +515,11 @@ Fixpoint rq_loop (fuel : nat) (gap : bool) (c : connp) : connp * Z :=
 
 (* Fuel. Every pass either returns, or advances in_current_read_offset, or moves along a chain of states that
    read nothing: IDLE -> LINE, PROTOCOL -> HEADERS|FINALIZE, CONNECT_CHECK -> BODY_DETERMINE -> body state|FINALIZE,
-   WAIT_RESPONSE -> PROBE|FINALIZE, FINALIZE -> IDLE. A complete cycle IDLE..IDLE is at most 8 passes and reads at
-   least 3 bytes (a request line of >= 2 bytes, a header terminator), so 4 * len + 64 covers every history in which
-   REQ_IDLE leaves the IDLE state. It does NOT leave it when the REQUEST_START callback answers anything but OK:
-   htp_connp_REQ_IDLE ignores the return value of htp_tx_state_request_start, in_state stays REQ_IDLE and the next
-   pass creates another transaction without reading a byte. With max_tx > 0 that stops after max_tx + 1 creations
-   (htp_connp_tx_create fails, ERROR), hence the 2 * max_tx + 4 term; with max_tx = 0 (unlimited) the real loop runs
-   for as long as the callback keeps refusing -- the model's out-of-fuel outcome stands for that (a finding). *)
-Definition rq_fuel (len : nat) : nat := (4 * len + 64 + 2 * g_max_tx g + 4)%nat.
+   WAIT_RESPONSE -> PROBE|FINALIZE, FINALIZE -> IDLE|IGNORE. A complete cycle IDLE..IDLE is at most 8 passes and reads
+   at least 3 bytes (a request line of >= 2 bytes, a header terminator), so 4 * len + 64 covers every history.
+   (Before /repo commit 399f0a9 htp_connp_REQ_IDLE ignored the result of htp_tx_state_request_start, so a REQUEST_START
+   callback that kept refusing made the real loop create transactions without reading a byte, unboundedly for max_tx = 0.) *)
+Definition rq_fuel (len : nat) : nat := (4 * len + 64)%nat.
 
 Definition connp_req_data (data : option bytes) (len : nat) (c : connp) : connp * Z :=
   if c_in_status c =? c_HTP_STREAM_STOP then (c, c_HTP_STREAM_STOP)
